@@ -308,7 +308,7 @@ def run(ctx):
         ctx.count(key, nontrivial=nontrivial)
 
     # -------------------------------------------------------------------------------------
-    # Latin hypercube.  `gen` is the (possibly long-lived) LHSGenerator, `bounds` the ORIGINAL declared bounds
+    # Latin hypercube.  `gen` is the (possibly long-lived) LHSGenerator, `bounds` the declared bounds CURRENT at the time of the call
     # -------------------------------------------------------------------------------------
     def lhs_step(gen, N, bounds, seed, inject, hinfo, do_init=True):
         tape = []
@@ -1087,7 +1087,7 @@ LEVEL_TEXT = ("Machine-checked Coq theorems over an exact-rational model of the 
               "parameter count, all bounds lb < ub, every tape of draws in [0,1) and every family of permutations: each column of a "
               "Latin-hypercube design has exactly one sample in each of the N equal-width strata; the van der Corput loop computes the "
               "radical inverse (digit-reversal sum) so Halton point i, coordinate j is lb_j + phi_{p_j}(i) (ub_j - lb_j), with the 2/3-wheel "
-              "sieve proved to deliver the first n primes for every n <= 300 (kernel computation, bound in the statement); the uniform grid "
+              "sieve proved to deliver the first n primes for every n <= 300 (kernel computation; the Halton theorem as a whole carries this bound in its statement); the uniform grid "
               "has k^n rows, contains exactly the combinations of the k levels lb + i (ub - lb)/(k-1), each once, first level lb, last ub; the "
               "random generator returns N designs within precision/2 of the box; all return one coordinate per parameter. The model is tied "
               "to doe.py / operators.py / utils.py on every run by evaluating it in Coq on the recorded draw tapes and comparing every "
@@ -1097,7 +1097,10 @@ LEVEL_TEXT = ("Machine-checked Coq theorems over an exact-rational model of the 
               "of single rows; 4/5, 169/170, 304/305 parameters; one-parameter grids for k = 2..70 and around 100, 128, 256, 1000, 1024; LHS "
               "with N up to 257 (thorough: 1025); random generator with N up to 1025 (thorough: 4097).")
 LEVEL_NOTE = ("Trusted: Coq kernel + vm_compute; the hand-written model and the Python harness; binary64 rounding is outside the model "
-              "(R3: results compared under a stated tolerance, rounding ties near a boundary skipped and counted). primes_correct is proved "
-              "for n <= 300 parameters (bound in the statement), everything else is unbounded. Correspondence is sampled: Halton designs "
+              "(R3: results compared under a stated tolerance of 16 ulp; nothing is skipped: random-generator entries whose exact quotient is "
+              "near a rounding tie are compared with the tolerance widened by one unit of precision and counted, exact ties are compared "
+              "strictly, Latin-hypercube samples near a stratum boundary go into the one-to-one matching of samples to strata). "
+              "C12_primes_correct and the whole statement of C12_halton_radical_inverse are stated for n <= 300 parameters (bound in the "
+              "statement), everything else is unbounded. Correspondence is sampled: Halton designs "
               "with more than 64 points are compared with the model at selected point numbers (every point is checked by the direct oracle "
               "against an independent float radical inverse); sample counts above 7000 (thorough: 70000) are not exercised.")
